@@ -3,6 +3,7 @@
 Decided: R16.1 comment header writer == reader == specification (shared with C05/C01); R16.3 tag folding is locale-free;
 R16.4 vorbis_comment_query and vorbis_comment_query_count apply one and the same match predicate over the same range;
 R16.2/R16.5 allocation sizes of the unpacker and of vorbis_comment_add (K4, see rules/c16 R16.2)."""
+import cfg
 import k8
 from facts import AnalysisBroken
 from rules import common, layout, c05
@@ -77,6 +78,84 @@ def r16_4(chk, P):
            f'query: {a}  query_count: {b}')
 
 
+def r16_2(chk, P):
+    chk.rule('R16.2', 'in _vorbis_unpack_comment every string is allocated zero-filled with one byte more than the length that is '
+             'then read into it (calloc(len+1,1) ... _v_readstring(opb,dest,len) with the same destination and the same length '
+             'expression), the stored length is that same value, and the two parallel arrays are both allocated with '
+             'comments+1 entries: strings come back NUL-terminated with exactly their bytes')
+    sk = k8.Skel(P, 'r')
+    F = P.need('_vorbis_unpack_comment')
+    defs = common.single_defs(F)
+    allocs = {}      # canon of destination -> (count canon, size canon, eid)
+    for e in sorted(F.pos):
+        nd = F.ex[e]
+        if nd['k'] == 'assign' and nd['op'] == '=':
+            r = F.ex[F.strip_casts(nd['c'][1])]
+            if r['k'] == 'call' and r['callee'].get('d') == 'calloc':
+                b_, off_ = sk.affine(F, r['c'][0])
+                allocs[sk.canon(F, F.strip_casts(nd['c'][0]))] = (F.s(F.strip_casts(r['c'][0])), F.s(F.strip_casts(r['c'][1])), e,
+                                                                   F.s(F.strip_casts(b_)), off_)
+    reads = list(F.calls('_v_readstring'))
+    chk.require(len(reads) >= 2 and allocs, '_vorbis_unpack_comment: string reads / allocations not found')
+    for i, c in enumerate(sorted(reads, key=lambda x: F.ex[x]['loc'])):
+        a = F.ex[c]['c']
+        dest = sk.canon(F, F.strip_casts(a[1]))
+        ln = F.s(F.strip_casts(a[2]))
+        al = allocs.get(dest)
+        ok = al is not None and al[3] == ln and al[4] == 1 and al[1] == '1' and cfg.pos_dominates(F, al[2], c)
+        chk.ob('R16.2', F.name, f'string#{i}:allocated-len+1-filled-len', ok, F.where(c),
+               f'destination {dest}: calloc({al[0]},{al[1]}) then {ln} bytes read' if al else f'no calloc found for destination {dest}')
+    cnt = [(d, v) for d, v in allocs.items() if d in ('.user_comments', '.comment_lengths')]
+    ok = len(cnt) == 2 and len({(v[3], v[4]) for d, v in cnt}) == 1 and all('comments' in v[3] and v[4] == 1 for d, v in cnt)
+    chk.ob('R16.2', F.name, 'parallel-arrays-comments+1', ok, F.where(), f'{[(d, v[0]) for d, v in cnt]}')
+    # the recorded length is the length read
+    lens = []
+    for e in sorted(F.pos):
+        nd = F.ex[e]
+        if nd['k'] == 'assign' and nd['op'] == '=' and '.comment_lengths[' in sk.canon(F, F.strip_casts(nd['c'][0])):
+            lens.append((e, F.s(F.strip_casts(nd['c'][1]))))
+    rd = [F.s(F.strip_casts(F.ex[c]['c'][2])) for c in reads]
+    ok = bool(lens) and all(v in rd for e, v in lens)
+    chk.ob('R16.2', F.name, 'stored-length-is-length-read', ok, F.where(lens[0][0]) if lens else F.where(), f'stored {[v for e, v in lens]}; read {rd}')
+
+
+def r16_5(chk, P):
+    chk.rule('R16.5', 'vorbis_comment_add grows both parallel arrays by the same element count (comments+2: the new entry and the '
+             'terminating NULL), allocates the new string with its length+1, and stores the terminating NULL at the incremented '
+             'count: the NULL stays inside the allocation')
+    sk = k8.Skel(P, 'r')
+    F = P.need('vorbis_comment_add')
+    grow = {}
+    for e in sorted(F.pos):
+        nd = F.ex[e]
+        if nd['k'] == 'assign' and nd['op'] == '=':
+            r = F.ex[F.strip_casts(nd['c'][1])]
+            if r['k'] == 'call' and r['callee'].get('d') == 'realloc':
+                sz = F.ex[F.strip_casts(r['c'][1])]
+                ce = sz['c'][0] if sz['k'] == 'bin' and sz['op'] == '*' else r['c'][1]
+                if sz['k'] == 'bin' and sz['op'] == '*' and F.ex[F.strip_casts(sz['c'][0])]['k'] == 'int':
+                    ce = sz['c'][1]
+                b_, off_ = sk.affine(F, ce)
+                grow[sk.canon(F, F.strip_casts(nd['c'][0]))] = f'({sk.canon(F, F.strip_casts(b_))}+{off_})'
+    ok = set(grow) >= {'.user_comments', '.comment_lengths'} and grow['.user_comments'] == grow['.comment_lengths'] == '(.comments+2)'
+    chk.ob('R16.5', F.name, 'both-arrays-grow-by-comments+2', ok, F.where(), f'{grow}')
+    # new string: malloc(length+1)
+    ok2 = False
+    for c in F.calls('malloc'):
+        b_, off_ = sk.affine(F, F.ex[c]['c'][0])
+        a = sk.canon(F, F.strip_casts(b_))
+        if off_ == 1 and a in ('.comment_lengths[.comments]', 'strlen($)'):
+            ok2 = True
+    chk.ob('R16.5', F.name, 'string-allocated-length+1', ok2, F.where(), 'the copy has room for the terminating NUL')
+    # NULL terminator stored after the increment
+    inc = [e for e in F.pos if F.ex[e]['k'] == 'un' and F.ex[e]['op'] in ('post++', 'pre++') and sk.canon(F, F.strip_casts(F.ex[e]['c'][0])) == '.comments']
+    nul = [e for e in F.pos if F.ex[e]['k'] == 'assign' and sk.canon(F, F.strip_casts(F.ex[e]['c'][0])) == '.user_comments[.comments]'
+           and common.is_zero(F, F.ex[e]['c'][1])]
+    ok3 = bool(inc) and bool(nul) and all(cfg.pos_dominates(F, inc[0], n_) for n_ in nul)
+    chk.ob('R16.5', F.name, 'terminator-at-incremented-count', ok3, F.where(nul[0]) if nul else F.where(),
+           'user_comments[comments]=NULL after comments++ (index old+1 < old+2)')
+
+
 def run(chk, P):
     chk.rule('R16.1', 'comment header: _vorbis_pack_comment mirrors _vorbis_unpack_comment (see R05.1) and the reader '
              'implements the layout of 05-comment.tex (see R01.1)')
@@ -93,6 +172,10 @@ def run(chk, P):
     chk.floor('R16.3', 3)
     r16_4(chk, P)
     chk.floor('R16.4', 1)
+    r16_2(chk, P)
+    chk.floor('R16.2', 4)
+    r16_5(chk, P)
+    chk.floor('R16.5', 3)
     import k4rules
     k4rules.c16(chk, P)
     chk.trusted += ['clang 14 front end', 'libc: strlen/strcpy/strcat have their ISO C meaning']
